@@ -65,16 +65,22 @@ REGRESS = """Make the two changes DIFFERENT IN KIND from each other: touch diffe
 
 IMPORTANT for this round: the git history of your worktree contains recent bug-fix commits (`git log --oneline | grep fix:`; look at them with `git show <hash>`). {relevant}At least ONE of your two changes must RE-INTRODUCE the misbehaviour that one of these fix commits repaired -- but NOT as a revert and not by editing the repaired lines back: achieve it differently, as a later maintainer who has forgotten the fix might -- a new fast path or cache that bypasses the repaired code, a refactoring that loses the repaired behaviour at another site (a helper, a caller, a sibling sync/async copy, the metaclass vs. the decorator path), an equivalent-looking rewrite of the repaired logic that is not equivalent for the special case the fix was about, a second code path that reaches the same state without going through the repaired one. The other change is free (any realistic subtle regression of the property). Any part of the library may be touched."""
 
+SMALL = """For this round produce FOUR changes (`a`, `b`, `c`, `d`) instead of two, and keep each of them SMALL: 1 to 5 changed lines, the kind of edit that slips through review -- a comparison operator or a boundary changed, a condition negated or one conjunct dropped, `is` vs `==`, `and` vs `or`, an argument swapped or left out, a default changed, a statement moved a few lines up or down (before/after a call, into/out of a `try`, `if`, loop), a `break`/`continue`/`return` added or removed, a copy dropped (`list(x)` -> `x`), `sorted(...)` dropped, an attribute read replaced by a neighbouring one, a literal changed. Spread the four changes over different functions (and modules where the property allows it) and over different clauses of the property. Each must still need something specific to manifest (so that the 358 tests stay green) and each must be a realistic slip, not vandalism."""
+
 for line in open("/verif/properties.jsonl"):
     rec = json.loads(line)
     pid = rec["id"]
     wt = prefix + pid[1:]
-    if style == "regress":
+    if style == "small":
+        st = SMALL
+    elif style == "regress":
         hashes = FIXES.get(pid, [])
         relevant = ("The ones most relevant to this property: %s. " % ", ".join(hashes)) if hashes else "Pick whichever of them touches this property's mechanism (if none does, both changes are free). "
         st = REGRESS.format(relevant=relevant)
     else:
         st = REFACTOR if style == "refactor" else QUIET
     text = TEMPLATE.format(wt=wt, out=out, pid=pid, record=json.dumps(rec, indent=1), style=st)
+    if style == "small":
+        text = text.replace("Produce TWO independent changes (call them `a`, `b`)", "Produce FOUR independent changes (call them `a`, `b`, `c`, `d`)").replace("`{out}/{pid}/a/`, `.../b/`:".format(out=out, pid=pid), "`{out}/{pid}/a/`, `.../b/`, `.../c/`, `.../d/`:".format(out=out, pid=pid)).replace("a brief description of the two changes", "a brief description of the four changes")
     open(os.path.join(out, "prompt_%s.txt" % pid), "w").write(text)
 print("wrote 20 prompts to", out)
